@@ -324,11 +324,25 @@ def nodesEqual : List Node → List Node → Bool
   | a :: t, b :: t' => a.equal b && nodesEqual t t'
   | _, _ => false
 
-/-- `Group.Equal` (it compares neither `GenesisTime` nor `CatchupPeriod`) -/
+/-- `sort.Slice(g.Nodes, Index <)` as `Group.Hash` does it (insertion; with distinct indices the algorithm does not matter) -/
+def insertByIndex (n : Node) : List Node → List Node
+  | [] => [n]
+  | x :: t => if n.index < x.index then n :: x :: t else x :: insertByIndex n t
+
+def sortByIndex : List Node → List Node
+  | [] => []
+  | x :: t => insertByIndex x (sortByIndex t)
+
+/-- the node list `Group.Equal` ends up comparing: `Equal` calls `GetGenesisSeed()` on both sides, which for a group
+without a stored seed calls `Hash()`, and `Hash()` sorts `g.Nodes` in place -/
+def Group.nodesForEqual (g : Group) : List Node :=
+  if g.genesisSeed.isNone then sortByIndex g.nodes else g.nodes
+
+/-- `Group.Equal` (it compares neither `GenesisTime` nor `CatchupPeriod`; it is not pure, see `nodesForEqual`) -/
 def Group.equal (L : Leaf) (g g2 : Group) : Bool :=
   compareBeaconIDs g.id g2.id && g.threshold == g2.threshold && L.durEnc g.period == L.durEnc g2.period &&
   g.nodes.length == g2.nodes.length && g.seed L == g2.seed L && g.transitionTime == g2.transitionTime &&
-  g.scheme == g2.scheme && nodesEqual g.nodes g2.nodes && g.publicKey == g2.publicKey
+  g.scheme == g2.scheme && nodesEqual g.nodesForEqual g2.nodesForEqual && g.publicKey == g2.publicKey
 
 structure GroupPacket where
   nodes : List PNode
@@ -707,8 +721,10 @@ def DBStateTOML.fromTOML (L : Leaf) (t : DBStateTOML) : Dec DBState :=
             remaining := t.remaining, joining := t.joining, leaving := t.leaving, acceptors := t.acceptors,
             rejectors := t.rejectors, finalGroup := group, keyShare := share }
 
-/-- `DBState.Equals` (times at second granularity; `reflect.DeepEqual` on participants and share is structural
-equality here) -/
+/-- `DBState.Equals`: times at second granularity; `reflect.DeepEqual` on participants is structural equality;
+`reflect.DeepEqual(d.KeyShare, e.KeyShare)` on two distinct non-nil shares is false whatever they hold, because it
+descends into `*crypto.Scheme`, whose function-valued fields are never deeply equal — so only nil = nil is equal
+(the reloaded share never is the same pointer). `Equals` is a test helper in drand. -/
 def DBState.equals (L : Leaf) (d e : DBState) : Bool :=
   d.beaconID == e.beaconID && d.epoch == e.epoch && d.state == e.state && d.threshold == e.threshold &&
   d.timeout.unix == e.timeout.unix && d.schemeID == e.schemeID && d.genesisTime.unix == e.genesisTime.unix &&
@@ -719,7 +735,7 @@ def DBState.equals (L : Leaf) (d e : DBState) : Bool :=
    | none, none => true
    | some g, some g2 => g.equal L g2
    | _, _ => false) &&
-  d.keyShare == e.keyShare
+  (d.keyShare.isNone && e.keyShare.isNone)
 
 /-! ### concrete leaves (used by the driver and for the non-vacuity examples) -/
 
